@@ -4,8 +4,12 @@
    cache, the rule schemas) is paragraph-local for EVERY chunk function / schema body; and the property
    itself, conditional on two hypotheses that the harness monitors on the real code in every run:
    H_lex_split (the tokens of P++D are the tokens of P followed by the shifted tokens of D) and
-   H_rules_local (every enabled struct rule is paragraph-local).  Hence `_partial`. *)
-Require Import Base Overlap Tables_lexer Lexer Condense ParaSplit ParaSplitProofs LexSplitProofs LongSentencesSeam.
+   H_rules_local (every enabled struct rule is paragraph-local).  Hence `_partial`.
+   Phase 3: H_lex_split is a THEOREM for the lexer + condense model (C12_doc_tokens_split): every pass of
+   Document::parse is proved to act independently on the two sides of the cut (C12_condense_*_split,
+   C12_condense_split); what remains assumed of the model is H_rules_local alone. *)
+Require Import Base Overlap Tables_lexer Lexer Condense TokenInv CondenseInv ParaSplit ParaSplitProofs C12Doc LexSplitProofs LongSentencesSeam
+  C12CondSpaces C12CondSuffix C12CondPattern C12CondPatterns3 C12CondInit C12CondQuotes C12LexEnds C12CondSplit.
 From Coq Require Import Sorting.Permutation.
 
 (* the index arithmetic of iter_chunks / iter_sentences / iter_paragraphs never slices out of range and
@@ -197,20 +201,156 @@ Check C12_lex_split : forall u,
       plain_parse u (P ++ D) = Ok (tp ++ map (shift_token (length P)) td).
 Print Assumptions C12_lex_split.
 
-(* the property for the real lexer model: what remains assumed is condense_split (the passes of
-   Document::parse commute with the split of the raw tokens; monitored at document level) and the locality
-   of the struct rules *)
+(* ---------- the passes of Document::parse, one by one (phase 3) ---------- *)
+(* on every tiling the three cursor / state-machine passes compute structurally recursive functions of the
+   token list (C02 proved the RELATION Grouped; these are equations, hence deterministic and splittable) *)
+Theorem C12_passes_functional : forall a b ts, Tiling a b ts ->
+  condense_spaces ts = Ok (sp_spec ts) /\ condense_newlines ts = Ok (nl_spec ts) /\
+  condense_dotted_initialisms ts = Ok (di_go None ts).
+Proof. exact (fun a b ts H => conj (condense_spaces_fun a b ts H) (conj (condense_newlines_fun a b ts H) (condense_dotted_initialisms_fun a b ts H))). Qed.
+Check C12_passes_functional : forall a b ts, Tiling a b ts ->
+  condense_spaces ts = Ok (sp_spec ts) /\ condense_newlines ts = Ok (nl_spec ts) /\
+  condense_dotted_initialisms ts = Ok (di_go None ts).
+Print Assumptions C12_passes_functional.
+
+Theorem C12_suffix_functional : forall src ts, Tiling 0 (length src) ts ->
+  condense_number_suffixes src ts = Ok (sfx_spec src ts).
+Proof. exact condense_number_suffixes_fun. Qed.
+Check C12_suffix_functional : forall src ts, Tiling 0 (length src) ts ->
+  condense_number_suffixes src ts = Ok (sfx_spec src ts).
+Print Assumptions C12_suffix_functional.
+
+(* condense_spaces splits behind A when NEITHER OF THE LAST TWO tokens of A is a Space (sp_closed): after a
+   merge the cursor is incremented twice, so the two tokens behind a merged child are passed over unread —
+   a Space,Space pair among the last three tokens of A swallows the first token(s) of B
+   (C12_condense_spaces_needs_closed).  P ending in terminator + newline run gives sp_closed (C12_raw_ends). *)
+Theorem C12_condense_spaces_split : forall A B k,
+  sp_closed A -> sp_spec (A ++ map (shift_tk k) B) = sp_spec A ++ map (shift_tk k) (sp_spec B).
+Proof. exact (fun A B k H => eq_trans (sp_spec_split A _ H) (f_equal (app (sp_spec A)) (sp_spec_moves k B))). Qed.
+Check C12_condense_spaces_split : forall A B k,
+  sp_closed A -> sp_spec (A ++ map (shift_tk k) B) = sp_spec A ++ map (shift_tk k) (sp_spec B).
+Print Assumptions C12_condense_spaces_split.
+
+(* condense_newlines: no condition on A; B must not start with a Newline token *)
+Theorem C12_condense_newlines_split : forall A B k,
+  head_not_newline B -> nl_spec (A ++ map (shift_tk k) B) = nl_spec A ++ map (shift_tk k) (nl_spec B).
+Proof. exact (fun A B k H => eq_trans (nl_spec_app A _ (head_nn_shift k B H)) (f_equal (app (nl_spec A)) (nl_spec_shift k B))). Qed.
+Check C12_condense_newlines_split : forall A B k,
+  head_not_newline B -> nl_spec (A ++ map (shift_tk k) B) = nl_spec A ++ map (shift_tk k) (nl_spec B).
+Print Assumptions C12_condense_newlines_split.
+
+(* condense_number_suffixes over the glued TEXT: the last token of A is not a Number, A lies inside P *)
+Theorem C12_condense_number_suffixes_split : forall (P D : text) A B,
+  sfx_closed A -> Forall (fun t => tend t <= length P) A ->
+  sfx_spec (P ++ D) (A ++ map (shift_tk (length P)) B) = sfx_spec P A ++ map (shift_tk (length P)) (sfx_spec D B).
+Proof. exact sfx_spec_glue. Qed.
+Check C12_condense_number_suffixes_split : forall (P D : text) A B,
+  sfx_closed A -> Forall (fun t => tend t <= length P) A ->
+  sfx_spec (P ++ D) (A ++ map (shift_tk (length P)) B) = sfx_spec P A ++ map (shift_tk (length P)) (sfx_spec D B).
+Print Assumptions C12_condense_number_suffixes_split.
+
+(* condense_pattern for ANY matcher: no match starting in A looks into B, the matcher does not notice the move *)
+Theorem C12_condense_pattern_split : forall (m mA mB : list token -> res nat) edit k A B,
+  (forall p s, A = p ++ s -> s <> [] -> m (s ++ map (shift_tk k) B) = mA s) ->
+  (forall s, m (map (shift_tk k) s) = mB s) ->
+  matcher_ok mA A -> monotone_ends mA A ->
+  forall A' B', condense_pattern mA edit A = Ok A' -> condense_pattern mB edit B = Ok B' ->
+    condense_pattern m edit (A ++ map (shift_tk k) B) = Ok (A' ++ map (shift_tk k) B').
+Proof. exact condense_pattern_split. Qed.
+Check C12_condense_pattern_split : forall (m mA mB : list token -> res nat) edit k A B,
+  (forall p s, A = p ++ s -> s <> [] -> m (s ++ map (shift_tk k) B) = mA s) ->
+  (forall s, m (map (shift_tk k) s) = mB s) ->
+  matcher_ok mA A -> monotone_ends mA A ->
+  forall A' B', condense_pattern mA edit A = Ok A' -> condense_pattern mB edit B = Ok B' ->
+    condense_pattern m edit (A ++ map (shift_tk k) B) = Ok (A' ++ map (shift_tk k) B').
+Print Assumptions C12_condense_pattern_split.
+
+(* its first premise for the three fixed matchers: A ends in a ParagraphBreak *)
+Theorem C12_patterns_local : forall (P D : text) A B', ends_break A ->
+  (forall p s, A = p ++ s -> s <> [] -> contraction_matches (P ++ D) (s ++ B') = contraction_matches P s) /\
+  (forall p s, A = p ++ s -> s <> [] -> ellipsis_matches (P ++ D) (s ++ B') = ellipsis_matches P s) /\
+  (Tiling 0 (length P) A -> Forall (CondPatterns3.tok_ok (P ++ D)) B' ->
+   forall p s, A = p ++ s -> s <> [] -> latin_matches (P ++ D) (s ++ B') = latin_matches P s).
+Proof. exact patterns_local. Qed.
+Check C12_patterns_local : forall (P D : text) A B', ends_break A ->
+  (forall p s, A = p ++ s -> s <> [] -> contraction_matches (P ++ D) (s ++ B') = contraction_matches P s) /\
+  (forall p s, A = p ++ s -> s <> [] -> ellipsis_matches (P ++ D) (s ++ B') = ellipsis_matches P s) /\
+  (Tiling 0 (length P) A -> Forall (CondPatterns3.tok_ok (P ++ D)) B' ->
+   forall p s, A = p ++ s -> s <> [] -> latin_matches (P ++ D) (s ++ B') = latin_matches P s).
+Print Assumptions C12_patterns_local.
+
+(* condense_dotted_initialisms: A ends in a ParagraphBreak *)
+Theorem C12_condense_initialisms_split : forall A B k, ends_break A ->
+  di_go None (A ++ map (shift_tk k) B) = di_go None A ++ map (shift_tk k) (di_go None B).
+Proof. exact (fun A B k H => eq_trans (di_spec_split A _ H) (f_equal (app (di_go None A)) (di_spec_moves k B))). Qed.
+Check C12_condense_initialisms_split : forall A B k, ends_break A ->
+  di_go None (A ++ map (shift_tk k) B) = di_go None A ++ map (shift_tk k) (di_go None B).
+Print Assumptions C12_condense_initialisms_split.
+
+(* match_quotes: no Quote token in A (the premise of the property), no twin yet in B *)
+Theorem C12_match_quotes_split : forall k A B B2,
+  quote_free_toks A -> NoTwins B -> match_quotes B = Ok B2 ->
+  match_quotes (A ++ map (shift_tk k) B) = Ok (A ++ map (shift_tk2 k (length A)) B2).
+Proof. exact match_quotes_split. Qed.
+Check C12_match_quotes_split : forall k A B B2,
+  quote_free_toks A -> NoTwins B -> match_quotes B = Ok B2 ->
+  match_quotes (A ++ map (shift_tk k) B) = Ok (A ++ map (shift_tk2 k (length A)) B2).
+Print Assumptions C12_match_quotes_split.
+
+(* the lexer side of the premises: the raw tokens of P = P0 ++ [terminator; newline; newline] end with a token
+   that is not a Space followed by ONE Newline(m), m >= 2 *)
+Theorem C12_raw_ends : forall u,
+  u_whitespace u NL = true -> u_numeric u NL = false -> u_alphabetic u NL = false -> u_lingual u NL = false ->
+  forall P tp, c12_premise P -> plain_parse u P = Ok tp ->
+    exists tp0 x nl m, tp = tp0 ++ [x; nl] /\ is_space_kind (tkind_of x) = false /\
+                       tkind_of nl = Lexer.KNewline m /\ 2 <= m.
+Proof. exact raw_ends. Qed.
+Check C12_raw_ends : forall u,
+  u_whitespace u NL = true -> u_numeric u NL = false -> u_alphabetic u NL = false -> u_lingual u NL = false ->
+  forall P tp, c12_premise P -> plain_parse u P = Ok tp ->
+    exists tp0 x nl m, tp = tp0 ++ [x; nl] /\ is_space_kind (tkind_of x) = false /\
+                       tkind_of nl = Lexer.KNewline m /\ 2 <= m.
+Print Assumptions C12_raw_ends.
+
+(* all nine passes together: condense_split, formerly a hypothesis, holds *)
+Theorem C12_condense_split : forall u,
+  u_whitespace u NL = true -> u_numeric u NL = false -> u_alphabetic u NL = false -> u_lingual u NL = false ->
+  condense_split u.
+Proof. exact condense_split_holds. Qed.
+Check C12_condense_split : forall u,
+  u_whitespace u NL = true -> u_numeric u NL = false -> u_alphabetic u NL = false -> u_lingual u NL = false ->
+  condense_split u.
+Print Assumptions C12_condense_split.
+
+(* H_lex_split for Document::new_plain_english (lexer + passes): a theorem *)
+Theorem C12_doc_tokens_split : forall u,
+  u_whitespace u NL = true -> u_numeric u NL = false -> u_alphabetic u NL = false -> u_lingual u NL = false ->
+  forall P D, c12_premise P -> no_leading_nl D ->
+    doc_tokens u (P ++ D)
+    = doc_tokens u P ++ map (shift_tok (length P) (length (doc_tokens u P))) (doc_tokens u D) /\
+    ends_in_break (doc_tokens u P) /\ in_bounds (length P) (doc_tokens u P).
+Proof. exact doc_tokens_split_holds. Qed.
+Check C12_doc_tokens_split : forall u,
+  u_whitespace u NL = true -> u_numeric u NL = false -> u_alphabetic u NL = false -> u_lingual u NL = false ->
+  forall P D, c12_premise P -> no_leading_nl D ->
+    doc_tokens u (P ++ D)
+    = doc_tokens u P ++ map (shift_tok (length P) (length (doc_tokens u P))) (doc_tokens u D) /\
+    ends_in_break (doc_tokens u P) /\ in_bounds (length P) (doc_tokens u P).
+Print Assumptions C12_doc_tokens_split.
+
+(* the property for the real lexer + condense model: what remains assumed is the locality of the struct
+   rules alone (condense_split is discharged) *)
 Theorem C12_main_lexer_partial : forall u,
   u_whitespace u NL = true -> u_numeric u NL = false -> u_alphabetic u NL = false -> u_lingual u NL = false ->
-  forall chunk_fn rules, condense_split u -> Forall para_local rules ->
+  forall chunk_fn rules, Forall para_local rules ->
   forall P D, c12_premise P -> no_leading_nl D ->
     Permutation (lints (doc_tokens u) chunk_fn rules (P ++ D))
                 (lints (doc_tokens u) chunk_fn rules P
                  ++ map (shift_lint (length P)) (lints (doc_tokens u) chunk_fn rules D)).
-Proof. exact main_lexer_partial. Qed.
+Proof. exact main_lexer_rules. Qed.
 Check C12_main_lexer_partial : forall u,
   u_whitespace u NL = true -> u_numeric u NL = false -> u_alphabetic u NL = false -> u_lingual u NL = false ->
-  forall chunk_fn rules, condense_split u -> Forall para_local rules ->
+  forall chunk_fn rules, Forall para_local rules ->
   forall P D, c12_premise P -> no_leading_nl D ->
     Permutation (lints (doc_tokens u) chunk_fn rules (P ++ D))
                 (lints (doc_tokens u) chunk_fn rules P
@@ -340,3 +480,35 @@ Example C12_long_sentences_old_refuted :
   long_sentence (nl_tok :: words41 1) = Ok [mkspan 1 42] /\
   long_sentence (words41 1) = Ok [mkspan 1 42].
 Proof. exact long_sentence_old_depends_on_leading_ws. Qed.
+
+(* the boundary conditions of the two cursor passes are needed (computed on the pass itself):
+   Space Space Newline | Space Space : glued, the second pair is NOT merged; alone it is *)
+Example C12_condense_spaces_needs_closed :
+  let sp i := Lexer.mktok (mkspan i (i + 1)) (Lexer.KSpace 1) in
+  let A := [sp 0; sp 1; Lexer.mktok (mkspan 2 3) (Lexer.KNewline 1)] in
+  let B := [sp 3; sp 4] in
+  condense_spaces (A ++ B) = Ok [Lexer.mktok (mkspan 0 2) (Lexer.KSpace 2); Lexer.mktok (mkspan 2 3) (Lexer.KNewline 1); sp 3; sp 4] /\
+  condense_spaces A = Ok [Lexer.mktok (mkspan 0 2) (Lexer.KSpace 2); Lexer.mktok (mkspan 2 3) (Lexer.KNewline 1)] /\
+  condense_spaces B = Ok [Lexer.mktok (mkspan 3 5) (Lexer.KSpace 2)].
+Proof. exact sp_spec_app_needs_closed. Qed.
+
+Example C12_condense_newlines_needs_head :
+  let nl i := Lexer.mktok (mkspan i (i + 1)) (Lexer.KNewline 1) in
+  condense_newlines ([nl 0] ++ [nl 1]) = Ok [Lexer.mktok (mkspan 0 2) (Lexer.KNewline 2)] /\
+  condense_newlines [nl 0] = Ok [nl 0] /\ condense_newlines [nl 1] = Ok [nl 1].
+Proof. exact nl_spec_app_needs_head. Qed.
+
+(* non-vacuity of C12_doc_tokens_split / C12_condense_split: the ASCII instance, P = <It's $5. e.g.> + blank line,
+   D = <x@y.z 7th "q"> : 8 + 7 document tokens, the quote twins of D (4, 6) become (12, 14) *)
+Example C12_doc_tokens_split_nonvacuous :
+  c12_premise ex_P /\ no_leading_nl ex_D /\
+  length (doc_tokens ascii_uni ex_P) = 8 /\ length (doc_tokens ascii_uni ex_D) = 7 /\
+  doc_tokens ascii_uni (ex_P ++ ex_D)
+  = doc_tokens ascii_uni ex_P ++ map (shift_tok (length ex_P) 8) (doc_tokens ascii_uni ex_D) /\
+  map ParaSplit.tkind (doc_tokens ascii_uni (ex_P ++ ex_D))
+  = [ParaSplit.KWord; ParaSplit.KSpace; ParaSplit.KPunct; ParaSplit.KNumber; KPeriod; ParaSplit.KSpace; ParaSplit.KWord; KBreak;
+     KOther; ParaSplit.KSpace; ParaSplit.KNumber; ParaSplit.KSpace; KQuote (Some 14); ParaSplit.KWord; KQuote (Some 12)].
+Proof.
+  split; [split; [repeat constructor|exists (firstn 12 ex_P), 46%N; split; [reflexivity|now left]]|].
+  split; [cbn; discriminate|]. repeat split; vm_compute; reflexivity.
+Qed.
